@@ -22,6 +22,7 @@
    explicit paths of the entry's aelys.toml are part of the tree (fsys).
    Definitions only; proofs are in Proofs/ModulesProofs.v. *)
 From Coq Require Import NArith Bool List.
+From Aelys Require Import Extracted.ModulesTables.
 Import ListNotations.
 Local Open Scope N_scope.
 
@@ -39,7 +40,7 @@ Inductive form :=
 | FWildcard.                    (* needs a.b.* *)
 
 Record import := { i_path : key; i_form : form }.
-Record def := { d_name : ident; d_pub : bool }.
+Record def := { d_name : ident; d_pub : bool; d_fn : bool }.   (* d_fn: `fn`, else `let` *)
 Record module := { m_imports : list import; m_defs : list def }.
 (* the directory tree: real files, symlinks (a file's or a directory's path -> the real path it
    points to) and the explicit paths of the entry's aelys.toml manifest ([module.<dotted name>]
@@ -117,11 +118,23 @@ Definition try_path (fs : fsys) (rootdir : list ident) (c : list ident) : rres :
 
 (* search_with_patterns: Direct{aelys} then ModFile{aelys}, below a directory.  (Native patterns
    are outside the model.) *)
-Definition resolve_in (fs : fsys) (dir : list ident) (p : key) : rres :=
-  match try_path fs dir (canon fs (dir ++ p)) with
-  | RMissing => try_path fs dir (canon fs (dir ++ p ++ [MODSEG]))
-  | r => r
+Definition pattern_path (pat : spat) (dir : list ident) (p : key) : list ident :=
+  match pat with
+  | PDirect => dir ++ p                    (* base_path.with_extension("aelys") *)
+  | PModFile => dir ++ p ++ [MODSEG]       (* base_path.join("mod.aelys") *)
   end.
+Fixpoint resolve_pats (fs : fsys) (pats : list spat) (dir : list ident) (p : key) : rres :=
+  match pats with
+  | [] => RMissing
+  | pat :: r =>
+      match try_path fs dir (canon fs (pattern_path pat dir p)) with
+      | RMissing => resolve_pats fs r dir p
+      | found_or_stop => found_or_stop
+      end
+  end.
+(* the patterns and their order come from full_search_patterns() (Extracted/ModulesTables.v) *)
+Definition resolve_in (fs : fsys) (dir : list ident) (p : key) : rres :=
+  resolve_pats fs script_patterns dir p.
 Definition to_opt (r : rres) : option fpath := match r with RFound f => Some f | _ => None end.
 
 (* next to the importing file, then next to the entry file (root) *)
@@ -236,9 +249,12 @@ Definition lres_of (i : import) : lres :=
   | FSymbols l => LSymbol (hd 0 l)
   end.
 
-(* collect_exports *)
+(* collect_exports: functions and lets, each under the guard found in the source
+   (fn_export_needs_pub / let_export_needs_pub, Extracted/ModulesTables.v) *)
+Definition exported (d : def) : bool :=
+  if d_fn d then negb fn_export_needs_pub || d_pub d else negb let_export_needs_pub || d_pub d.
 Definition pub_names (m : module) : list ident :=
-  map d_name (filter d_pub (m_defs m)).
+  map d_name (filter exported (m_defs m)).
 
 (* sync_globals_to_hashmap after the body ran: every top-level definition, pub or not *)
 Definition write_defs (f : fpath) (m : module) (s : nsmap) : nsmap :=
@@ -264,12 +280,13 @@ Fixpoint check_all (ex : list ident) (s : nsmap) : bool :=
 Fixpoint check_syms (syms ex : list ident) (s : nsmap) : bool :=
   match syms with
   | [] => true
-  | n :: r => mem_id n ex && match ns_get (GB n) s with Some _ => check_syms r ex s | None => false end
+  | n :: r => (negb symbols_checked || mem_id n ex)
+              && match ns_get (GB n) s with Some _ => check_syms r ex s | None => false end
   end.
 Definition bind_exports (i : import) (ex : list ident) (s : nsmap) : option nsmap :=
   match i_form i with
   | FModule => bind_all (alias_of i) true ex s
-  | FAlias a => bind_all a false ex s
+  | FAlias a => bind_all a (negb bare_unless_aliased) ex s
   | FSymbols l => if check_syms l ex s then Some s else None
   | FWildcard => if check_all ex s then Some s else None
   end.
@@ -289,15 +306,21 @@ Definition module_for (fs : fsys) (root base : list ident) (i : import) (ld : li
   | None => None
   end.
 
+Definition kind_of (f : form) : form_kind :=
+  match f with FModule => KModule | FAlias _ => KAlias | FSymbols _ => KSymbols | FWildcard => KWildcard end.
+(* what the arm of an import form inserts into known_globals (entry_grant / module_grant,
+   Extracted/ModulesTables.v) *)
+Definition granted_names (g : grant) (i : import) (info : minfo) : list ident :=
+  match g with
+  | GExports => mi_exports info
+  | GSymbols => match i_form i with FSymbols l => l | _ => [] end
+  | GNone => []
+  end.
+
 Definition contrib_mod (acc : names) (i : import) (r : lres) (mi : option minfo) : names :=
   let acc := add_lres acc r in
   match mi with
-  | Some info =>
-      match i_form i with
-      | FModule | FWildcard => (fst acc, mi_exports info ++ snd acc)
-      | FSymbols l => (fst acc, l ++ snd acc)
-      | FAlias _ => acc
-      end
+  | Some info => (fst acc, granted_names (module_grant (kind_of (i_form i))) i info ++ snd acc)
   | None => acc
   end.
 
@@ -309,14 +332,10 @@ Definition contrib_entry (acc : names) (orig : list ident) (i : import) (r : lre
   let acc := add_lres acc r in
   match mi with
   | Some info =>
-      match i_form i with
-      | FModule =>
-          if inter_nonempty (mi_exports info) orig then None
-          else Some ((fst acc, mi_exports info ++ snd acc), mi_exports info ++ orig)
-      | FWildcard => Some ((fst acc, mi_exports info ++ snd acc), mi_exports info ++ orig)
-      | FSymbols l => Some ((fst acc, l ++ snd acc), l ++ orig)
-      | FAlias _ => Some (acc, orig)
-      end
+      let g := granted_names (entry_grant (kind_of (i_form i))) i info in
+      (* only the whole-module form checks symbol_origins *)
+      if match i_form i with FModule => inter_nonempty (mi_exports info) orig | _ => false end then None
+      else Some ((fst acc, g ++ snd acc), g ++ orig)
   | None => Some (acc, orig)
   end.
 
@@ -381,7 +400,10 @@ Definition load_step (fs : fsys) (root : list ident) (ld : loader) (i : import) 
                     | Some s => {| i_path := actual; i_form := FSymbols [s] |}
                     | None => i
                     end in
-        if mem_key file (stack st) then Err ECircular (events st)
+        (* the loading-stack check, then the memo: in the order found in load_module
+           (cycle_before_memo, Extracted/ModulesTables.v) *)
+        let on_stack := mem_key file (stack st) in
+        if cycle_before_memo && on_stack then Err ECircular (events st)
         else match lookup file (loaded st) with
         | Some info =>
             match bind_exports eimp (mi_exports info) (ns st) with
@@ -389,7 +411,8 @@ Definition load_step (fs : fsys) (root : list ident) (ld : loader) (i : import) 
             | Some s => Ok (set_ns st s, lres_of eimp)
             end
         | None =>
-            match find_file fs file with
+            if on_stack then Err ECircular (events st)
+            else match find_file fs file with
             | None => Err ENotFound (events st)
             | Some m => compile fs root ld file eimp m st
             end
@@ -434,6 +457,44 @@ Definition run (fs : fsys) (entry : fpath) (fuel : nat) : res (list event) :=
           let s1 := write_defs entry m (ns st) in
           Ok (events st ++ [{| ev_file := entry; ev_key := []; ev_aliases := fst acc;
                                ev_known := map d_name (m_defs m) ++ snd acc; ev_ns := s1 |}])
+      end
+  end.
+
+(* ---- a REPL session: inputs run one after the other on one VM.  An input is a module without a
+   file (run_with_vm resolves its imports from the working directory `root`); loaded_modules,
+   VM.globals and the names earlier inputs imported persist across inputs.  The session is modelled
+   up to its first failing input. *)
+Record sstate := { ss_st : lstate; ss_names : names }.
+
+Definition session_start (root : list ident) : sstate :=
+  {| ss_st := {| loaded := []; stack := []; base := root; ns := []; events := [] |}; ss_names := ([], []) |}.
+
+(* one input: its imports are loaded on top of the session's state; its top level then sees its own
+   definitions, everything earlier inputs imported or defined, and what it imports itself *)
+Definition run_input (fs : fsys) (root : list ident) (fuel : nat) (name : fpath) (m : module) (ss : sstate)
+  : res (sstate * event) :=
+  match entry_go fs root fuel (m_imports m) (ss_st ss) (ss_names ss) [] with
+  | Fuel => Fuel
+  | Err e tr => Err e tr
+  | Ok (st, acc) =>
+      let s1 := write_defs name m (ns st) in
+      let known := map d_name (m_defs m) ++ snd acc in
+      let ev := {| ev_file := name; ev_key := []; ev_aliases := fst acc; ev_known := known; ev_ns := s1 |} in
+      Ok ({| ss_st := {| loaded := loaded st; stack := []; base := root; ns := s1; events := events st ++ [ev] |};
+             ss_names := (fst acc, known) |}, ev)
+  end.
+
+Fixpoint run_session (fs : fsys) (root : list ident) (fuel : nat) (inputs : list (fpath * module)) (ss : sstate)
+  : list (res (list event)) :=
+  match inputs with
+  | [] => []
+  | (name, m) :: r =>
+      match run_input fs root fuel name m ss with
+      | Ok (ss', _) =>
+          (* what this input added to the init trace, its own top level last *)
+          Ok (skipn (length (events (ss_st ss))) (events (ss_st ss'))) :: run_session fs root fuel r ss'
+      | Err e tr => [Err e (skipn (length (events (ss_st ss))) tr)]
+      | Fuel => [Fuel]
       end
   end.
 
